@@ -291,9 +291,9 @@ func runCorrupt(res *vf.Result, lb *loadedBase, it *item, dir string) {
 	outcome := judge(res, what, it.Op, rerr, out, lb.ref)
 	res.Logf("%s -> %s (err=%v)", what, outcome, rerr)
 	res.Count(fmt.Sprintf("corrupt:%s:L%d:%s", it.Op, f.Level, outcome), 1)
-	if it.Op == "flip" && f.sizeTop(it.Off) && it.Mask >= 0x40 {
-		res.Count("obs:flip-size-prefix-top-byte-GiB-allocation:"+outcome, 1)
-		res.Count("obs:flip-size-prefix-top-byte-GiB-allocation:restore-ms", int(time.Since(t0).Milliseconds()))
+	if it.Op == "flip" && f.sizeTop(it.Off) && it.Mask >= 0x10 {
+		res.Count("obs:flip-size-prefix-top-byte-256MiB-allocation:"+outcome, 1)
+		res.Count("obs:flip-size-prefix-top-byte-256MiB-allocation:restore-ms", int(time.Since(t0).Milliseconds()))
 	}
 	if it.Op != "delete" {
 		res.Count(fmt.Sprintf("region:%s:%s:%s", it.Op, f.region(it.Off), outcome), 1)
